@@ -24,14 +24,14 @@ Step(ev) ==
   ELSE IF ev.exc # ""
   THEN \* the failure clause: the only admissible failure is RuntimeError; inside the PD region a failure is a violation
        \* (the statement lets fit raise RuntimeError whenever THE SOLVER cannot produce a finite SPD matrix - scikit-learn's
-       \*  graphical lasso gives up on some positive definite inputs of condition number ~ 10^3; such cases are counted, not judged)
-       \* ... unless the documented input matrix is positive definite AND well conditioned (condition number < 100, computed by
-       \* the harness on its own matrix): no solver gives up there, so a failure means another problem was handed to it
+       \*  graphical lasso gives up on some positive definite inputs, seen down to a condition number of 64; such cases are counted, not judged)
+       \* ... unless the fit of a SUPERVISED wrapper failed where the base learner, given the documented pairs and labels and
+       \* the same hyper-parameters, succeeds: then the wrapper handed the solver another problem
        R(G("C13.failure_is_RuntimeError", ev.exc = "RuntimeError")
-         \cup G("C13.well_conditioned_positive_definite_input_is_solved", ~(inputPD /\ ev.input_well_conditioned)),
+         \cup G("C13.supervised_fit_fails_only_where_the_base_learner_on_the_documented_pairs_fails", ~ev.base_solves_documented_problem),
          {"C13.failure_is_RuntimeError"}
-         \cup (IF inputPD /\ ev.input_well_conditioned THEN {"C13.well_conditioned_positive_definite_input_is_solved"} ELSE {})
-         \cup (IF inputPD /\ ~ev.input_well_conditioned THEN {"X13.solver_failed_on_a_positive_definite_input"} ELSE {}))
+         \cup (IF ev.supervised THEN {"C13.supervised_fit_fails_only_where_the_base_learner_on_the_documented_pairs_fails"} ELSE {})
+         \cup (IF inputPD THEN {"X13.solver_failed_on_a_positive_definite_input"} ELSE {}))
   ELSE
   LET M == DM!Gram(ev.L) IN
   IF ~(AllFinM(ev.L) /\ IsCholesky(ev.cholM, M))
